@@ -5,6 +5,7 @@ import (
 	"crypto/cipher"
 	"encoding/binary"
 	"encoding/hex"
+	"errors"
 	"fmt"
 	"io"
 	"path/filepath"
@@ -167,14 +168,15 @@ func (e *EncryptedISO) Read(b []byte) (int, error) {
 }
 
 func (e *EncryptedISO) ReadAt(b []byte, off int64) (int, error) {
+	// io.ReaderAt returns the bytes read before the end of file together with io.EOF: they must be processed too
 	read, err := e.privateFile.ReadAt(b, off)
-	if err != nil || read == 0 {
+	if read == 0 || (err != nil && !errors.Is(err, io.EOF)) {
 		return read, err
 	}
 
 	e.clearRegionsData(sizeBytes(off), b[:read])
 	e.decryptData(sizeBytes(off), b[:read], true)
-	return read, nil
+	return read, err
 }
 
 func (e *EncryptedISO) Seek(offset int64, whence int) (int64, error) {
